@@ -67,7 +67,7 @@ pub fn gen(rng: &mut Rng, tier: Tier, out: &mut Vec<String>) {
     for b in boxes {
         out.push(format!("box {}", b.iter().map(|x| h32(*x)).collect::<Vec<_>>().join(" ")));
     }
-    let radii: &[f32] = if q { &[1.0, 0.37, 25.0] } else { &[1.0, 0.37, 25.0, 0.001, 1000.0, 3.1415927] };
+    let radii: &[f32] = if q { &[1.0, 0.37, 25.0] } else { &[1.0, 0.37, 25.0, 1e-6, 1e-4, 1e-3, 1e-2, 1e3, 1e6, 3.1415927] };
     for secs in 3..=smax {
         for segs in 2..=gmax {
             for r in radii {
@@ -112,6 +112,47 @@ pub fn gen(rng: &mut Rng, tier: Tier, out: &mut Vec<String>) {
         out.push(format!("cyl {secs} {segs} 1 {}", h32(1.0)));
         out.push(format!("cone {secs} {segs} 1 {} {}", h32(1.0), h32(0.0)));
         out.push(format!("capsule {secs} 4 {} {}", segs / 2, h32(1.0)));
+    }
+    // every solid that takes a size, at very small and very large sizes (the oracle's tolerances
+    // are relative to the size; only the normal length is absolute)
+    const SCALES: &[f32] = &[1e-6, 1e-4, 5e-4, 1e-3, 2e-3, 1e-2, 1.0, 1e3, 1e6];
+    let counts: &[(u32, u32)] = if q { &[(3, 2), (5, 4), (8, 6)] } else { &[(3, 2), (4, 3), (5, 4), (8, 6), (12, 12)] };
+    for &s in SCALES {
+        for &(secs, segs) in counts {
+            out.push(format!("sphere {secs} {segs} {}", h32(s)));
+            out.push(format!("torus {secs} {} {} {}", segs.max(3), h32(2.0 * s), h32(0.5 * s)));
+            out.push(format!("torus {secs} {} {} {}", segs.max(3), h32(s), h32(0.25 * s)));
+            // the capsule's body is 2 long whatever the radius: beyond radius ~3e3 its rings are
+            // closer than 1e-4 of the size, i.e. coincident by the property's own merging rule
+            if s <= 1e3 {
+                out.push(format!("capsule {secs} {} {} {}", 1 + segs / 3, segs.min(4), h32(s)));
+            }
+            for capped in [0, 1] {
+                out.push(format!("cyl {secs} {} {capped} {}", segs - 1, h32(s)));
+                for (a, b) in [(1.0f32, 0.0f32), (1.0, 0.5), (0.5, 2.0), (0.0, 1.0)] {
+                    out.push(format!("cone {secs} {} {capped} {} {}", segs - 1, h32(a * s), h32(b * s)));
+                }
+            }
+        }
+        // boxes: a cube, an asymmetric box and an offset one, all scaled
+        for b in [[-0.5f32, -0.5, -0.5, 0.5, 0.5, 0.5], [-1.0, -2.0, -3.0, 1.0, 2.0, 3.0], [1.0, 2.0, 3.0, 1.5, 4.0, 3.25]] {
+            out.push(format!("box {}", b.iter().map(|x| h32(*x * s)).collect::<Vec<_>>().join(" ")));
+        }
+        // lathe profiles scaled in position, with profile normals of unit, tiny and huge length
+        for (i, nscale) in [1.0f32, s, 1.0 / s].into_iter().enumerate() {
+            let secs = 3 + (i as u32) * 2;
+            let n = 3 + i;
+            for ((a0, a1), capped) in [((0.0f32, 1.0f32), 1), ((0.1, 0.6), 0)] {
+                let mut l = format!("lathe {secs} {capped} {} {} {n}", h32(a0), h32(a1));
+                for k in 0..n {
+                    let y = -1.0 + 2.0 * k as f32 / (n - 1) as f32;
+                    let x = 1.0 + 0.2 * (1.5 * y).sin();
+                    let dxdy = 0.3 * (1.5 * y).cos();
+                    l += &format!(" {} {} {} {}", h32(x * s), h32(y * s), h32(nscale), h32(-dxdy * nscale));
+                }
+                out.push(l);
+            }
+        }
     }
     // the lathe itself: smooth profiles, partial azimuth ranges, capped and not
     let ranges: &[(f32, f32)] = &[(0.0, 1.0), (0.0, 0.25), (0.1, 0.6), (-0.5, 0.5), (0.0, 0.75), (0.25, 1.25)];
